@@ -164,6 +164,8 @@ def format_code(
     keep_imports: bool = False,
     max_line_length: int = core.parse_line_length_from_pyproject_toml(),
 ) -> str:
+    preserve = frozenset(preserve)  # Any collection is accepted, but the fixes use set operators
+
     if re.search(r"#\s*pyrefact\s*:\s*skip_file", source):
         return source
 
